@@ -5,5 +5,7 @@ pub mod error;
 pub mod listener;
 pub mod metrics;
 pub mod rate_limiter;
+#[cfg(passage_verif)]
+pub mod verif;
 
 pub use error::*;
